@@ -39,10 +39,8 @@ package discovery
 //@   refines domain.EndpointRepository.GetAll
 //@   loop 1 invariant forall key string :: has(r.endpoints, key) ==> r.endpoints[key] != nil && !fresh(r.endpoints[key])
 //@   loop 1 invariant forall k int :: 0 <= k && k < len(endpoints) ==> endpoints[k] != nil && fresh(endpoints[k]) && allocated(endpoints[k]) && (exists key string :: seen(key) && sameRecord(endpoints[k], r.endpoints[key]))
-//@   loop 1 invariant forall key string :: seen(key) ==> (exists k int :: 0 <= k && k < len(endpoints) && sameRecord(endpoints[k], r.endpoints[key]))
 //@   ensures err == nil
 //@   ensures forall k int :: 0 <= k && k < len(res) ==> res[k] != nil && fresh(res[k]) && (exists key string :: has(r.endpoints, key) && sameRecord(res[k], r.endpoints[key]))
-//@   ensures forall key string :: has(r.endpoints, key) ==> (exists k int :: 0 <= k && k < len(res) && sameRecord(res[k], r.endpoints[key]))
 
 //@ func (r *StaticEndpointRepository) UpdateEndpoint
 //@   property C03 C07
